@@ -687,7 +687,19 @@ func TestArbitraryStrings(t *testing.T) {
 			toks := tokenize(valid)
 			nm := rapid.IntRange(1, 3).Draw(t, "nmut")
 			for i := 0; i < nm; i++ {
-				switch rapid.IntRange(0, 4).Draw(t, "mut") {
+				switch rapid.IntRange(0, 6).Draw(t, "mut") {
+				case 5, 6:
+					// drop a whole index group "[" literal "]": a field access straight on a list or map
+					var opens []int
+					for k, tk := range toks {
+						if tk == "[" && k+2 < len(toks) && toks[k+2] == "]" {
+							opens = append(opens, k)
+						}
+					}
+					if len(opens) > 0 {
+						k := opens[rapid.IntRange(0, len(opens)-1).Draw(t, "grp")]
+						toks = append(toks[:k:k], toks[k+3:]...)
+					}
 				case 0:
 					if len(toks) > 0 {
 						k := rapid.IntRange(0, len(toks)-1).Draw(t, "k")
@@ -1104,6 +1116,40 @@ func fuzzMessages() []proto.Message {
 		Uint64Keymap: map[uint64]*tmpb.Test{18446744073709551615: {Strkeymap: map[string]*tmpb.Test_Nested{"": nested}}},
 	}
 	return []proto.Message{full, &tmpb.Test{}, leaf}
+}
+
+// A field access straight on a repeated field (no index) must be refused by the parser: evaluating
+// such a path would ask protoreflect to treat a list as a message.
+func TestRegressionFieldAccessOnUnindexedList(t *testing.T) {
+	md := (&tmpb.Test{}).ProtoReflect().Descriptor()
+	gmd := (&epb.VMGoldenMeasurement{}).ProtoReflect().Descriptor()
+	msg := fuzzMessages()[0]
+	for _, c := range []struct {
+		md   protoreflect.MessageDescriptor
+		msg  proto.Message
+		path string
+	}{
+		{md, msg, "repeats.nested"},
+		{md, msg, "repeats.repeats[0]"},
+		{md, msg, "repeats[0].repeats.nested.intfield"},
+		{md, msg, "(testprotopath.Test).repeats.int32repeats"},
+		{gmd, &epb.VMGoldenMeasurement{Tdx: &epb.VMTdx{Measurements: []*epb.VMTdx_Measurement{{Mrtd: []byte{1}}}}}, "tdx.measurements.mrtd"},
+	} {
+		p, err, pan := safeParse(c.md, c.path)
+		if pan != nil {
+			ev.Violation(t, "C19/parse-panic", "ParsePath(%q) panicked: %v", c.path, pan)
+			continue
+		}
+		if err == nil {
+			_, _, wellTyped := refWalkPath(c.msg, p)
+			_, _, vpan := safeValues(p, c.msg)
+			if !wellTyped || vpan != nil {
+				ev.Violation(t, "C19/parse-ill-typed-path", "ParsePath(%q) produced a path that does not type-check against the root descriptor (evaluation panic: %v): %v", c.path, vpan, p)
+				continue
+			}
+		}
+		ev.Case("regression", true, c.path, "field-on-unindexed-list", func() any { return c.path })
+	}
 }
 
 // Regression tests for confirmed findings (plain cases that bypass generation).
